@@ -342,6 +342,17 @@ pub fn gen_c07(run: &mut Run, seed: u64, thorough: bool) {
             run.op(&format!("{ep} {args} {}", right.tok()), &format!("{}-negative-amount-{st}", &ep[3..]));
             qs(run);
         }
+        // privileged spenders get no shortcut: the token owner and a designated minter need an allowance from the holder
+        // like anybody else (their own authorisation is not the holder's)
+        for (sp, spn) in [(owner0.clone(), "owner"), (minter.clone(), "minter")] {
+            run.op(&format!("tk.burn_from {} {} 10 {}", sp.tok(), subject.tok(), sp.tok()), &format!("burn_from-by-{spn}-without-allowance-{st}"));
+            qs(run);
+            run.op(&format!("tk.transfer_from {} {} {} 10 {}", sp.tok(), subject.tok(), sp.tok(), sp.tok()), &format!("transfer_from-by-{spn}-without-allowance-{st}"));
+            qs(run);
+            run.op(&format!("tk.burn_from {} {} 10 {},{}", sp.tok(), counter.tok(), sp.tok(), owner0.tok()), &format!("burn_from-by-{spn}-of-third-party-{st}"));
+            qs(run);
+            run.op(&format!("tk.balance {}", sp.tok()), "q");
+        }
         for (ep, args, right) in &eps {
             let cp = if *right == subject { counter.clone() } else { subject.clone() };
             for (au, cl) in who(right, &cp, &owner0) {
